@@ -154,7 +154,11 @@ class CollectFootnotes(Transform):
             # avoid warning: Document or section may not begin with a transition
             # (also when only the promoted document title/subtitle precede it)
             and not all(
-                isinstance(c, nodes.footnote | nodes.title | nodes.subtitle)
+                isinstance(
+                    c,
+                    # (warnings are not content either)
+                    nodes.footnote | nodes.title | nodes.subtitle | nodes.system_message,
+                )
                 for c in self.document.children
             )
             # avoid error: At least one body element must separate transitions
@@ -183,7 +187,11 @@ class CollectFootnotes(Transform):
         """
         node: nodes.Element = self.document
         while True:
-            children = [c for c in node.children if not isinstance(c, nodes.footnote)]
+            children = [
+                c
+                for c in node.children
+                if not isinstance(c, nodes.footnote | nodes.system_message)
+            ]
             if not children:
                 return False
             if isinstance(children[-1], nodes.transition):
